@@ -116,7 +116,7 @@ def run(tier, seed):
         {"label": "utf8-message-scenarios", "cfg": PLAIN, "module": 'GenC05', "invariants": ('Emit',), "raw_cfg":
             "SPECIFICATION Spec\nCONSTANTS MaxPayload = %d\nINVARIANT Emit\nCHECK_DEADLOCK FALSE\n" % (4 if q else 6), "consts": {}},
         {"label": "session-model", "cfg": PLAIN,
-         "consts": dict(HttpItems='HttpOk', Items='C05Items', Cfg='CfgPlain', MaxItems=3 if q else 4, ChunkMax=2)},
+         "consts": dict(HttpItems='HttpOk', Items='C05Items', Cfg='CfgPlain', MaxItems=3, ChunkMax=2)},
     ]
     r, results, seen = sessprop.standard_run(
         'C05', tier, seed, sessprop.wrapper('Mon_C05'), 'Mon_C05', insts, KINDS,
